@@ -14,7 +14,7 @@ import (
 // C27: histories of RPC call records (portmap v2, rpcbind v3/v4, plus malformed / unknown
 // programs, versions and procedures) from loopback, remote and odd addresses, and Go-API
 // registrations, on the real Portmapper. Observed after every event: reply bytes (or the error
-// return), the registry, isLoopbackAddr(remoteAddr).
+// return), the registry, and whether a caller at that address may modify a registry at all (probe).
 func init() {
 	Props["C27"] = &Prop{
 		Imports: "From Verif Require Import Model.Portmap Corr.C27Bytes Corr.C27.",
@@ -396,6 +396,14 @@ func sameReg(a, b []absnfs.PortMapping) bool {
 
 var acceptNames = map[uint32]string{0: "SUCCESS", 1: "PROG_UNAVAIL", 2: "PROG_MISMATCH", 3: "PROC_UNAVAIL", 4: "GARBAGE_ARGS", 5: "SYSTEM_ERR"}
 
+// probeAllowed asks the implementation, on a scratch Portmapper, whether a caller at addr may modify
+// the registry (a well-formed v2 SET registers its mapping): the observable form of isLoopbackAddr.
+func probeAllowed(addr net.Addr) bool {
+	pm := absnfs.NewPortmapper()
+	pm.VerifHandleCall(mkCall(1, 2, 1, u32(1, 1, 6, 1)), addr)
+	return len(pm.GetMappings()) == 1
+}
+
 func runC27(listen string, evs []event, kind string, idx int) Case {
 	pm := absnfs.NewPortmapper()
 	if listen != "" {
@@ -411,7 +419,7 @@ func runC27(listen string, evs []event, kind string, idx int) Case {
 		switch e.kind {
 		case 0:
 			reply, err = pm.VerifHandleCall(e.data, e.c.addr)
-			allow = absnfs.VerifIsLoopbackAddr(e.c.addr)
+			allow = probeAllowed(e.c.addr)
 			coqEvs = append(coqEvs, fmt.Sprintf("Call %s %s", e.c.coq, CB(e.data)))
 			tags["caller."+e.c.kind]++
 			lab := e.label
